@@ -25,19 +25,23 @@ LOG_2PI = math.log(2.0 * math.pi)
 
 
 def gauss_loglik(nu, s):
-    """Return dict(loglik, nis, cond, logdet, ok).  ``ok`` is False when S is not (numerically) positive definite."""
+    """Return dict(loglik, nis, q, cond, logdet, m, ok).  ``ok`` is False when S is not (numerically) positive definite.
+
+    q = |nu|^2 / lambda_min(S) >= nis bounds the quadratic form for *any* direction of nu; cond(S)*eps*q is the first-order
+    error of a quadratic form evaluated through an explicitly inverted S.
+    """
     nu = np.asarray(nu, dtype=float).reshape(-1)
     s = np.asarray(s, dtype=float)
     m = nu.shape[0]
     if s.shape != (m, m) or not np.all(np.isfinite(s)) or not np.all(np.isfinite(nu)):
-        return {"ok": False, "loglik": float("nan"), "nis": float("nan"), "cond": float("inf"), "logdet": float("nan"), "m": m}
+        return {"ok": False, "loglik": float("nan"), "nis": float("nan"), "q": float("nan"), "cond": float("inf"), "logdet": float("nan"), "m": m}
     lam, v = np.linalg.eigh(0.5 * (s + s.T))
     if lam[0] <= 0.0:
-        return {"ok": False, "loglik": float("nan"), "nis": float("nan"), "cond": float("inf"), "logdet": float("nan"), "m": m}
+        return {"ok": False, "loglik": float("nan"), "nis": float("nan"), "q": float("nan"), "cond": float("inf"), "logdet": float("nan"), "m": m}
     z = v.T @ nu
     nis = float(np.sum(z * z / lam))
     logdet = float(np.sum(np.log(lam)))
-    return {"ok": True, "loglik": -0.5 * nis - 0.5 * (m * LOG_2PI + logdet), "nis": nis, "cond": float(lam[-1] / lam[0]),
+    return {"ok": True, "loglik": -0.5 * nis - 0.5 * (m * LOG_2PI + logdet), "nis": nis, "q": float(nu @ nu) / float(lam[0]), "cond": float(lam[-1] / lam[0]),
             "logdet": logdet, "m": m}
 
 
